@@ -22,6 +22,8 @@ pub struct PropDef {
     pub droppable: fn(&Ev) -> bool,
     /// does a (reduced) workload still satisfy the generator's guarantees? The minimiser only keeps those.
     pub well_formed: fn(&Workload) -> bool,
+    /// include the schedule's deviation sites in violation signatures (false: only the `sig` elements)
+    pub deviation_signature: bool,
     pub rule: &'static str,
     pub components_real: &'static [&'static str],
     pub components_stub: &'static [&'static str],
@@ -45,7 +47,7 @@ fn decisions_hash(res: &SimResult) -> u64 {
 }
 
 fn clone_opts(o: &SimOpts) -> SimOpts {
-    SimOpts { io_enabled: o.io_enabled, step_cap: o.step_cap, max_in_flight: o.max_in_flight, gate_first: o.gate_first, observe_all: o.observe_all }
+    SimOpts { io_enabled: o.io_enabled, step_cap: o.step_cap, max_in_flight: o.max_in_flight, gate_first: o.gate_first, observe_all: o.observe_all, reference: o.reference }
 }
 
 fn violates(def: &PropDef, env: &Env, wl: &Workload, opts: &SimOpts, decisions: &[Choice], clause: &str) -> Option<SimResult> {
@@ -101,7 +103,7 @@ fn minimise(def: &PropDef, env: &Env, wl: &Workload, opts: &SimOpts, res: SimRes
 }
 
 fn signature(def: &PropDef, wl: &Workload, r: &SimResult) -> Vec<String> {
-    let mut s: BTreeSet<String> = sched::deviation_signature(&r.out.steps).into_iter().collect();
+    let mut s: BTreeSet<String> = if def.deviation_signature { sched::deviation_signature(&r.out.steps).into_iter().collect() } else { BTreeSet::new() };
     for x in (def.sig)(wl, r) {
         s.insert(x);
     }
@@ -112,7 +114,7 @@ fn replay_value(def: &PropDef, wl: &Workload, opts: &SimOpts, r: &SimResult, ori
     json!({
         "property": def.id,
         "workload": wl,
-        "opts": {"io_enabled": opts.io_enabled, "step_cap": opts.step_cap, "max_in_flight": opts.max_in_flight, "gate_first": opts.gate_first, "observe_all": opts.observe_all},
+        "opts": {"io_enabled": opts.io_enabled, "step_cap": opts.step_cap, "max_in_flight": opts.max_in_flight, "gate_first": opts.gate_first, "observe_all": opts.observe_all, "reference": opts.reference},
         "decisions": r.out.steps.iter().map(|s| s.choice.code()).collect::<Vec<_>>(),
         "trace": sched::trace_text(&r.out.steps),
         "events": r.names,
@@ -390,7 +392,7 @@ fn replay(def: &PropDef, cli: &Cli, path: &str, base: &str) -> i32 {
     let v: Value = serde_json::from_str(&txt).unwrap_or_else(|e| harness_error(&format!("bad replay json: {e}")));
     let wl: Workload = serde_json::from_value(v["workload"].clone()).unwrap_or_else(|e| harness_error(&format!("replay workload: {e}")));
     let o = &v["opts"];
-    let opts = SimOpts { io_enabled: o["io_enabled"].as_bool().unwrap_or(true), step_cap: o["step_cap"].as_u64().unwrap_or(20000) as usize, max_in_flight: o["max_in_flight"].as_u64().unwrap_or(4) as usize, gate_first: o["gate_first"].as_bool().unwrap_or(false), observe_all: o["observe_all"].as_bool().unwrap_or(false) };
+    let opts = SimOpts { io_enabled: o["io_enabled"].as_bool().unwrap_or(true), step_cap: o["step_cap"].as_u64().unwrap_or(20000) as usize, max_in_flight: o["max_in_flight"].as_u64().unwrap_or(4) as usize, gate_first: o["gate_first"].as_bool().unwrap_or(false), observe_all: o["observe_all"].as_bool().unwrap_or(false), reference: o["reference"].as_bool().unwrap_or(false) };
     let dec: Vec<Choice> = v["decisions"].as_array().cloned().unwrap_or_default().iter().filter_map(|s| s.as_str().and_then(Choice::parse)).collect();
     let env = Env::new(&PathBuf::from(cli.get("scratch").unwrap_or("/dev/shm/vsim/lspsim-replay")));
     let r = simulate(&env, &wl, Mode::Forced { list: dec, pos: 0, tolerant: false }, &clone_opts(&opts));
